@@ -79,6 +79,12 @@ def check_size_synthesis(ctx, ir, text):
     return n
 
 
+def has_array(text):
+    """an array type (`UInt:8[]`, `Cell[3]`) occurs in the module text; field locations are written ` [+n]`"""
+    import re
+    return re.search(r"[A-Za-z0-9]\[", text) is not None
+
+
 def zlist(xs):
     return "[" + "; ".join(("(%d)" % x) if x < 0 else str(x) for x in xs) + "]"
 
@@ -314,12 +320,12 @@ def run(ctx):
     runner2 = fw.CoqCases(ctx, "stable", hdr, "run_stable mods", "zlist_eqb", "(nat * (list Z * list Z))", "(list Z)", shard=60)
     bad2 = runner2.run(stable_cases) if stable_cases else []
     ctx.obligation("prefix stability holds on %d (module, prefix, extension) triples outside the refuted classes" % len(stable_cases),
-                   all(("[]" in stable_cases[i][2]["module"]) for i, _ in bad2))
+                   all(has_array(stable_cases[i][2]["module"]) for i, _ in bad2))
     for a, b, obj in stable_cases:
         ctx.case(("stable", obj["module"], tuple(obj["prefix"]), tuple(obj["extension"])), nontrivial=len(obj["prefix"]) > 0)
     for idx, out in bad2:
         obj = stable_cases[idx][2]
-        cls = "array" if "[]" in obj["module"] else "other"
+        cls = "array" if has_array(obj["module"]) else "other"
         ctx.violation("prefix-instability:" + cls,
                       "an observation known on a prefix of the message changes when more bytes arrive (%s)" % cls,
                       dict(kind="view-prefix", module=obj["module"], prefix=obj["prefix"], extension=obj["extension"]), found_input=True)
